@@ -71,7 +71,10 @@ manifest = {
     'not_applicable': na,
     'notes': 'Exit codes of every command: 0 holds (KNOWN-FINDING lines allowed), 1 VIOLATION, 2 ANALYSIS-ERROR (anchor vanished / '
     'idiom not recognised: the analysis refuses to vouch, never a silent pass). Known findings: /verif/known_findings.json. '
-    'Thorough tier = quick tier + in-memory variant matrix (seeded breaks must be reported, behaviour-preserving edits must stay silent).',
+    'A VIOLATION is printed only for an obligation whose rule identified something that contradicts the property; a function rewritten in a shape '
+    'the rule does not know is answered by exit 2 (not recognised), never by a VIOLATION (DESIGN.md 7.9). '
+    'Thorough tier = quick tier + in-memory variant matrix (own mutants, the 80 seeded changes of /verif/seeded, 17 whole-package behaviour-preserving variants); '
+    'tools/score.py replays the 80 refactorings of /verif/refactorings and the 80 seeded changes.',
 }
 with open(os.path.join(HERE, 'MANIFEST.json'), 'w') as f:
     json.dump(manifest, f, indent=1)
